@@ -104,6 +104,11 @@ InvConstant == (Mesh /\ kd > 0 /\ s = 0 /\ Grads /\ ((g1 = 0 /\ g2 = 0) => phi =
 
 (* periodic seam of the 3-cell mesh: 2 x (xc_0 + length - xc_2) = vol_0 + vol_2, for every origin f0 *)
 InvSeam == Mesh => (C(f0, f1) + 2 * (f3 - f0) - C(f2, f3) = (f1 - f0) + (f3 - f2))
+(* C14: on a uniform mesh (any origin) the seam distance IS the interior centre distance: the seam gradient is an interior one *)
+InvSeamUniform == (Mesh /\ f1 - f0 = f2 - f1 /\ f2 - f1 = f3 - f2) =>
+                    (C(f0, f1) + 2 * (f3 - f0) - C(f2, f3) = C(f1, f2) - C(f0, f1))
+InvBadSeamUniform == (Mesh /\ f1 - f0 = f2 - f1 /\ f2 - f1 = f3 - f2) =>
+                       (C(f0, f1) + 2 * f3 - C(f2, f3) = C(f1, f2) - C(f0, f1))
 InvBadSeam == Mesh => (C(f0, f1) + 2 * f3 - C(f2, f3) = (f1 - f0) + (f3 - f2))
 
 (* uniform mesh, dx = 1, a = +1, data u0..u3 = q_{c-2} .. q_{c+1}: 4 kd x upwind (left) face states and the residual of cell c *)
